@@ -35,3 +35,24 @@ GRAMMAR = {
     "FilesInfo": ["END", "DUMMY", "EMPTY_STREAM", "EMPTY_FILE", "NAME", "CREATION_TIME", "LAST_ACCESS_TIME", "LAST_WRITE_TIME",
                   "ATTRIBUTES", "START_POS"],  # ANTI: unsupported by py7zr -> must raise, not be skipped
 }
+
+
+def _subsets_in_order(opt, tail):
+    out = [[]]
+    for o in opt:
+        out = out + [w + [o] for w in out]
+    # keep format order
+    words = []
+    for w in out:
+        words.append(sorted(w, key=opt.index) + tail)
+    return sorted(words)
+
+
+# the property-id words each sequential section reader must accept (exactly): optional records in format order, then kEnd
+SECTION_WORDS = {
+    "archiveinfo:PackInfo._read": [["END"], ["SIZE", "END"], ["SIZE", "CRC", "END"]],
+    "archiveinfo:SubstreamsInfo._read": _subsets_in_order(["NUM_UNPACK_STREAM", "SIZE", "CRC"], ["END"]),
+    "archiveinfo:StreamsInfo.read": _subsets_in_order(["PACK_INFO", "UNPACK_INFO", "SUBSTREAMS_INFO"], ["END"]),
+    "archiveinfo:UnpackInfo._read": [["FOLDER"]],
+    "archiveinfo:UnpackInfo._retrieve_coders_info": [["CODERS_UNPACK_SIZE", "END"], ["CODERS_UNPACK_SIZE", "CRC", "END"]],
+}
